@@ -858,8 +858,14 @@ class Normalizer:
 
         def scan(block: t.List[ast.stmt], in_loop: bool, cond: bool) -> None:
             for s in block:
-                if isinstance(s, (ast.Assign, ast.AnnAssign)) and not in_loop and not cond:
-                    tgt = s.targets[0] if isinstance(s, ast.Assign) and len(s.targets) == 1 else (s.target if isinstance(s, ast.AnnAssign) else None)
+                tgts: t.List[t.Optional[ast.expr]] = []
+                if isinstance(s, ast.Assign) and all(isinstance(x, ast.Name) for x in s.targets):
+                    tgts = list(s.targets)  # a = b = <value>: every name is an alias of the value
+                elif isinstance(s, ast.AnnAssign):
+                    tgts = [s.target]
+                for tgt in tgts if (isinstance(s, (ast.Assign, ast.AnnAssign)) and not in_loop and not cond) else []:
+                    if len(tgts) > 1 and not (isinstance(s.value, ast.Constant) or _is_pure_path(t.cast(ast.expr, s.value))):
+                        continue
                     if isinstance(tgt, ast.Name) and s.value is not None and count.get(tgt.id) == 1 and tgt.id not in params and tgt.id not in multi:
                         v = s.value
                         ok = False
@@ -911,8 +917,11 @@ class Normalizer:
                 return node
 
             def visit_Assign(self, node: ast.Assign) -> t.Any:
-                if len(node.targets) == 1 and isinstance(node.targets[0], ast.Name) and node.targets[0].id in cmap:
-                    return None
+                if all(isinstance(x, ast.Name) for x in node.targets) and any(x.id in cmap for x in node.targets):  # type: ignore[attr-defined]
+                    keep = [x for x in node.targets if x.id not in cmap]  # type: ignore[attr-defined]
+                    if not keep:
+                        return None
+                    node.targets = keep
                 return self.generic_visit(node)
 
             def visit_AnnAssign(self, node: ast.AnnAssign) -> t.Any:
